@@ -98,6 +98,11 @@ func findSelectorExprViolation(
 		return nil
 	}
 
+	// A type alias stands for the type it denotes
+	if typeName, ok := obj.(*types.TypeName); ok {
+		obj = resolveAlias(typeName)
+	}
+
 	// Get package information
 	pkg := obj.Pkg()
 	if pkg == nil {
@@ -128,6 +133,17 @@ func findSelectorExprViolation(
 	return nil
 }
 
+// resolveAlias returns the declared type a type alias stands for,
+// or the type name itself if it is not an alias of a declared type
+func resolveAlias(typeName *types.TypeName) *types.TypeName {
+	if typeName.IsAlias() {
+		if named, ok := types.Unalias(typeName.Type()).(*types.Named); ok && named.Obj().Pkg() != nil {
+			return named.Obj()
+		}
+	}
+	return typeName
+}
+
 // findIdentViolation checks identifier usage for local package objects
 // Returns violation or nil
 func findIdentViolation(
@@ -137,6 +153,13 @@ func findIdentViolation(
 	obj := ctx.pass.TypesInfo.ObjectOf(ident)
 	if obj == nil {
 		return nil
+	}
+
+	// A local type alias stands for the type it denotes, which may be declared elsewhere
+	if typeName, ok := obj.(*types.TypeName); ok && typeName.IsAlias() && obj.Pkg() != nil && obj.Pkg().Path() == ctx.currentPkgPath {
+		if target := resolveAlias(typeName); target.Pkg().Path() != ctx.currentPkgPath {
+			return findTypeViolation(ctx, target.Pkg().Path(), target.Name(), ident.Pos())
+		}
 	}
 
 	// Only check local package objects (imports are handled by selector expressions)
